@@ -47,7 +47,7 @@ def pair_matrix(roles, f, to_string_key=None, str_to_number_key=None):
     return res
 
 
-def classify(roles, f, unit, restrict, v1, v2, to_string_key, str_to_number_key):
+def classify(roles, f, unit, restrict, v1, v2, to_string_key, str_to_number_key, depth=0):
     facts = roles.facts
     calls = []
     cmps = []
@@ -124,5 +124,26 @@ def classify(roles, f, unit, restrict, v1, v2, to_string_key, str_to_number_key)
     elif booleq and not feq:
         o.kind = "BOOLEQ"
     else:
+        # plain delegation of this pair to another two-value predicate of the crate with the same operands:
+        # the outcome is that predicate's outcome for the same pair
+        dele = [x for x in calls if x[3]["local"] and x[3].get("key") != f.key and facts.items.get(x[3]["key"], {}).get("output") == "bool"
+                and facts.items[x[3]["key"]].get("inputs") == ["&serde_json::Value", "&serde_json::Value"]]
+        if len(dele) == 1 and depth == 0:
+            b, bi, t, c = dele[0]
+            args = [strip_refs(b.xtrace(a)) for a in t["args"]]
+            rr = strip_refs(r)
+            direct = rr[0] == "call" and rr[3] == bi and b.key == f.key
+            if args == [("arg", 1), ("arg", 2)] and direct:
+                g = facts.body(c["key"])
+                gunit = roles.unit(g.key)
+
+                def assume(e, adt, _a=v1, _b=v2):
+                    if adt == VALUE and e == ("arg", 1):
+                        return _a
+                    if adt == VALUE and e == ("arg", 2):
+                        return _b
+                    return None
+                grestrict = P.specialise_unit(roles, g.key, assume, assume_bool=_distinct_refs)
+                return classify(roles, g, gunit, grestrict, v1, v2, to_string_key, str_to_number_key, depth + 1)
         o.kind = "OTHER(%s)" % ",".join(sorted({p.rsplit("::", 1)[-1] for p in paths}))[:80]
     return o
